@@ -12,6 +12,26 @@ var families = []string{"share", "cancel", "fault", "free", "kid-shapes", "skip-
 
 var faultKinds = []fakejwks.Kind{fakejwks.Status500, fakejwks.Truncated, fakejwks.KeysNotArray, fakejwks.Abort, fakejwks.BodyReadErr, fakejwks.OAuthErr400}
 
+var (
+	badStatuses = []int{500, 502, 503, 403, 404, 429, 301}
+	// the JWKS-shaped bodies are the revealing ones, so they are drawn more often
+	badBodies = []fakejwks.BodyKind{fakejwks.BodyCurrent, fakejwks.BodyCurrent, fakejwks.BodyCurrent, fakejwks.BodyForeign, fakejwks.BodyForeign,
+		fakejwks.BodyEmptyObject, fakejwks.BodyMessage, fakejwks.BodyMessage, fakejwks.BodyEmptyKeys, fakejwks.BodyArray, fakejwks.BodyEmpty, fakejwks.BodyHTML}
+)
+
+// randFault: a download that is not a 200 answer with the served document.
+func randFault(r *rand.Rand) fakejwks.Step {
+	if r.IntN(5) < 2 {
+		return fakejwks.Step{Kind: pick(r, faultKinds...)}
+	}
+	return fakejwks.Step{Kind: fakejwks.StatusBody, Status: pick(r, badStatuses...), Body: pick(r, badBodies...)}
+}
+
+// emptySet200: 200 with a well-formed but empty key set (grey: the statement's "failed or malformed" does not cover it).
+func emptySet200(r *rand.Rand) fakejwks.Step {
+	return fakejwks.Step{Kind: fakejwks.StatusBody, Status: 200, Body: pick(r, fakejwks.BodyEmptyObject, fakejwks.BodyEmptyKeys)}
+}
+
 var sizes = []int{1, 2, 2, 3, 3, 4, 4, 5, 6, 8, 8, 12, 16, 16, 24, 32, 48, 64}
 
 func pick[T any](r *rand.Rand, xs ...T) T { return xs[r.IntN(len(xs))] }
@@ -83,6 +103,7 @@ func candidates(c0, s int) map[string][]tok {
 		}
 	}
 	add("unknown-kid", tok{"x", "zz"})
+	add("foreign-doc-key", tok{"f", "f"})
 	add("kidless-foreign", tok{"x", ""})
 	for _, k := range []string{"a", "b", "c", "d"} {
 		_, c := inShape(c0, k)
@@ -112,7 +133,7 @@ var kindWeights = []struct {
 	kind string
 	w    int
 }{
-	{"cached", 5}, {"new", 6}, {"retired", 3}, {"unknown-kid", 3}, {"wrong-key-good-kid", 2}, {"kidless-valid", 2},
+	{"cached", 5}, {"new", 6}, {"retired", 3}, {"unknown-kid", 3}, {"foreign-doc-key", 2}, {"wrong-key-good-kid", 2}, {"kidless-valid", 2},
 	{"kidless-foreign", 1}, {"unserved-own-kid", 1}, {"kid-swap", 1}, {"served-kidless-key-foreign-kid", 1},
 }
 
@@ -146,6 +167,7 @@ type phaseOpts struct {
 	cancelProb float64 // per caller
 	broken     bool    // every download of the phase is faulty
 	firstFault bool    // the first (held) download is faulty, later ones deliver
+	firstEmpty bool    // the first download answers 200 with an empty key set
 	ownerFirst bool
 }
 
@@ -159,17 +181,23 @@ func genPhase(r *rand.Rand, c0, s int, o phaseOpts) phaseSpec {
 	first := fakejwks.Step{Kind: fakejwks.Deliver, Hold: o.mode == "gated"}
 	switch {
 	case o.broken:
-		first.Kind = pick(r, faultKinds...)
-		ps.Def = fakejwks.Step{Kind: pick(r, faultKinds...)}
+		first = randFault(r)
+		ps.Def = randFault(r)
 	case o.firstFault:
-		first.Kind = pick(r, faultKinds...)
+		first = randFault(r)
+	case o.firstEmpty:
+		first = emptySet200(r)
 	}
+	first.Hold = o.mode == "gated"
 	ps.Script = []fakejwks.Step{first}
 	if !o.broken {
 		for k := 0; k < 2; k++ {
 			st := fakejwks.Step{Kind: fakejwks.Deliver}
-			if r.IntN(4) == 0 {
-				st.Kind = pick(r, faultKinds...)
+			switch x := r.IntN(16); {
+			case x < 4:
+				st = randFault(r)
+			case x == 4:
+				st = emptySet200(r)
 			}
 			if o.mode == "gated" && r.IntN(4) == 0 {
 				st.Hold = true
@@ -177,7 +205,9 @@ func genPhase(r *rand.Rand, c0, s int, o phaseOpts) phaseSpec {
 			ps.Script = append(ps.Script, st)
 		}
 	} else {
-		ps.Script = append(ps.Script, fakejwks.Step{Kind: pick(r, faultKinds...), Hold: o.mode == "gated" && r.IntN(3) == 0})
+		st := randFault(r)
+		st.Hold = o.mode == "gated" && r.IntN(3) == 0
+		ps.Script = append(ps.Script, st)
 	}
 	// cancellation plan
 	type plan struct{ point string }
@@ -287,6 +317,11 @@ func genRound(r *rand.Rand, caseIdx int) roundSpec {
 		}
 		adv(genPhase(r, c, s2, phaseOpts{mode: pick(r, "gated", "free"), n: n(), broken: true, cancelProb: 0.05}), false)
 		adv(genPhase(r, c, s2, phaseOpts{mode: pick(r, "gated", "free"), n: small(), broken: true, bias: "cached"}), false)
+		if r.IntN(4) == 0 {
+			// grey zone: a 200 answer with an empty key set, then the same tokens again
+			adv(genPhase(r, c, s2, phaseOpts{mode: pick(r, "gated", "free"), n: small(), firstEmpty: true, bias: "new"}), false)
+			adv(genPhase(r, c, s2, phaseOpts{mode: "free", n: small(), broken: true, bias: "cached"}), false)
+		}
 		// the endpoint heals (first download of the phase may still fail)
 		adv(genPhase(r, c, s2, phaseOpts{mode: "gated", n: n(), firstFault: r.IntN(2) == 0, bias: "new"}), true)
 		adv(genPhase(r, c, s2, phaseOpts{mode: "free", n: small()}), true)
@@ -332,7 +367,7 @@ func genRound(r *rand.Rand, caseIdx int) roundSpec {
 //   Ci            (cancellation of caller i, anywhere: before its arrival, while parked, after the release), for at most
 //                 two cancelled callers,
 // every step followed by a quiescence barrier. Tokens: V (valid, signed by served key a) or U (unknown kid, foreign key).
-// First download: deliver or 500; second download delivers.
+// First download: deliver or 503 with the served document as body (a failed download); second download delivers.
 
 type enumCase struct {
 	n      int
@@ -422,7 +457,8 @@ func enumSpec(n, maxCancel, k int) roundSpec {
 	}
 	first := fakejwks.Step{Kind: fakejwks.Deliver, Hold: true}
 	if d0bad {
-		first.Kind = fakejwks.Status500
+		// a 503 whose body is the served JWKS document: still a failed download
+		first = fakejwks.Step{Kind: fakejwks.StatusBody, Status: 503, Body: fakejwks.BodyCurrent, Hold: true}
 	}
 	ps.Script = []fakejwks.Step{first, {Kind: fakejwks.Deliver, Hold: true}}
 	for _, e := range seq {
